@@ -31,13 +31,22 @@ def _val(ty, bs):
 def decode_layout(layout, vecs):
     """vecs: list of byte lists, one per kani::any() call in call order. Arrays may arrive as one vector
     of N bytes or as N one-byte vectors; both are accepted."""
+    expected = sum(ty[1] if isinstance(ty, tuple) else 1 for _n, ty in layout)
+    if len(vecs) != expected:
+        return None  # the slicer dropped some input steps: positions cannot be trusted
     out = {}
     i = 0
     for name, ty in layout:
         if i >= len(vecs):
             out[name] = None
             continue
-        if isinstance(ty, tuple) and ty[0] == "bytes":
+        if isinstance(ty, tuple) and ty[0] == "u64s":
+            vals = []
+            for _ in range(ty[1]):
+                if i < len(vecs):
+                    vals.append(int.from_bytes(bytes(vecs[i]), "little")); i += 1
+            out[name] = vals
+        elif isinstance(ty, tuple) and ty[0] == "bytes":
             n = ty[1]
             if len(vecs[i]) == n:
                 out[name] = list(vecs[i]); i += 1
@@ -56,7 +65,11 @@ def decode_for_check(kern, check, playbacks, _text):
     """Kani prints one playback block per failing check / satisfied cover, headed by the check's description."""
     for pb in playbacks or []:
         if pb.get("desc") == check["desc"]:
-            return decode_layout(kern["layout"], pb["vals"])
+            v = decode_layout(kern["layout"], pb["vals"])
+            if v is None:
+                continue
+            v.update(kern.get("consts", {}))
+            return v
     return None
 
 
@@ -70,18 +83,175 @@ def kern(id, inject, hfile, harness, tiers, expect_s, timeout_s, mem_gb, functio
 Q, T = "quick", "thorough"
 PROPERTIES = {}
 
-# ------------------------------------------------------------------------------------------------- C18
-PROPERTIES["C18"] = dict(
+def B(n):
+    return ("bytes", n)
+def U64S(n):
+    return ("u64s", n)
+
+STD_REGEX_STUBS = ["regex::Regex::new / Regex::is_match / RegexManager::matches -> assume(false) (regex crate cannot be compiled by Kani: every path that would evaluate a regex is cut; masks are built with the regex-kind bits syntactically off)",
+                   "std::time::Instant::now -> frozen clock"]
+PACK = "utils::fast_hash -> injective packing of (len, bytes) for strings <= 7 bytes (= the property's no-collision assumption), recording variant appends each value to a small static so emitted tokens are observed where they are produced"
+
+# ------------------------------------------------------------------------------------------------- C01
+TOK_LAYOUT = lambda n: [("fb", B(n)), ("fl", "usize"), ("pre", "u8"), ("post", "u8"), ("has_pre", "bool"), ("has_post", "bool"),
+                        ("pre2", "u8"), ("post2", "u8"), ("has_pre2", "bool"), ("has_post2", "bool")]
+def tok(kind, la, ra, tiers, expect, tmo, mem, two=False):
+    n = 4 if two else 5
+    return kern("C01.tok2.%s" % kind if two else "C01.tok.%s" % kind, "src/utils.rs", "h_utils.rs", ("c01_tok2_%s" if two else "c01_tok_%s") % kind, tiers, expect, tmo, mem,
+                ["utils::fast_tokenizer_no_regex (twice: rule with the flags get_tokens passes, URL with (false,false))"],
+                "rule: 1..=%d printable ASCII bytes without '*'/'^'; URL = pre(0..=%d) ++ rule ++ post(0..=%d), no context on an anchored side; anchors la=%s ra=%s" % (n, 2 if two else 1, 2 if two else 1, la, ra),
+                TOK_LAYOUT(n), "c01_tok", asserts="every token the tokenizer emits for the rule is a token of the URL (rule tokens are a subset of URL tokens)",
+                stubs=[PACK], cuts=["patterns containing '*' or '^' (regex kinds)"], consts={"la": la, "ra": ra})
+def gt(kind, la, ra, tiers, expect, tmo, mem):
+    return kern("C01.gt.%s" % kind, "src/filters/network.rs", "h_network.rs", "c01_gt_%s" % kind, tiers, expect, tmo, mem,
+                ["filters::network::NetworkFilter::get_tokens", "utils::tokenize_filter", "utils::tokenize_pooled", "utils::fast_tokenizer_no_regex", "utils::is_allowed_filter"],
+                "rule: 1..=4 lower-case printable ASCII bytes without '*'/'^'; URL = pre(0..=1) ++ rule ++ post(0..=1); anchors la=%s ra=%s" % (la, ra),
+                [("fb", B(4)), ("fl", "usize"), ("pre", "u8"), ("post", "u8"), ("has_pre", "bool"), ("has_post", "bool")], "c01_tok",
+                asserts="tokens of get_tokens() (real flag selection) are a subset of the tokens of the URL (real tokenize_pooled, real Unicode predicate)",
+                stubs=[PACK] + STD_REGEX_STUBS[:1], cuts=["patterns containing '*' or '^'"], consts={"la": la, "ra": ra})
+
+PROPERTIES["C01"] = dict(
     kernels=[
-        kern("C18.perm", "src/resources/mod.rs", "h_resources_mod.rs", "c18_perm", [Q, T], 2, 300, 4,
-             ["resources::PermissionMask::is_injectable_by", "resources::PermissionMask::is_default", "resources::PermissionMask::from_bits"],
-             "all 256 x 256 (required, granted) pairs", [("required", "u8"), ("granted", "u8")], "c18_perm",
-             asserts="is_injectable_by(required, granted) <=> every required bit is granted; is_default <=> no bit"),
+        tok("plain", False, False, [Q], 160, {Q: 900, T: 1800}, 8),
+        tok("left", True, False, [Q], 140, {Q: 900, T: 1800}, 8),
+        tok("right", False, True, [Q], 170, {Q: 900, T: 1800}, 8),
+        tok("both", True, True, [Q], 150, {Q: 900, T: 1800}, 8),
+        kern("C01.l1c", "src/utils.rs", "h_utils.rs", "c01_l1c", [Q, T], 20, 600, 4, ["utils::is_allowed_filter"], "every ASCII byte",
+             [("c", "u8")], "c01_l1c", asserts="is_allowed_filter(c) <=> c in [0-9A-Za-z%]"),
+        kern("C01.bin", "src/utils.rs", "h_utils.rs", "c01_bin_lookup", [Q, T], 10, 600, 4, ["utils::bin_lookup"], "sorted arrays of 0..=3 symbolic u64, symbolic needle",
+             [("a", U64S(3)), ("n", "usize"), ("x", "u64")], "c01_bin", asserts="bin_lookup == linear membership"),
+        kern("C01.flags", "src/filters/network.rs", "h_network.rs", "c01_flags", [Q, T], 60, 900, 6, ["filters::network::NetworkFilter::get_tokens", "utils::tokenize_filter", "utils::fast_tokenizer_no_regex"],
+             "all 2^32 masks with the regex/host-anchor/removeparam kind bits syntactically zero; fixed pattern 'ab/cd/ef'", [("m", "u32")], "c01_flags",
+             asserts="first run emitted iff not right-anchored, last iff right-anchored, middle always; scheme token iff exactly one of FROM_HTTP/FROM_HTTPS",
+             stubs=[PACK] + STD_REGEX_STUBS[:1], consts={"mask_clear": (1 << 18) | (1 << 21) | (1 << 24) | (1 << 28) | (1 << 15)}),
+        kern("C01.dom", "src/filters/network.rs", "h_network.rs", "c01_dom", [Q, T], 40, 900, 6, ["filters::network_matchers::check_options", "filters::network::NetworkFilter::get_tokens"],
+             "all masks (kind bits off); one included domain hash; request source hashes absent or 0..=2 symbolic; scheme/party flags symbolic",
+             [("m", "u32"), ("d", "u64"), ("s", U64S(2)), ("ns", "usize"), ("has_src", "bool"), ("http", "bool"), ("https", "bool"), ("tp", "bool")], "c01_dom",
+             asserts="options pass and the rule is filed under its single included domain => that hash is among the request's source-hostname hashes",
+             stubs=[PACK] + STD_REGEX_STUBS[:1], consts={"mask_clear": (1 << 18) | (1 << 21) | (1 << 24) | (1 << 28) | (1 << 15)}),
+        kern("C01.scheme", "src/filters/network.rs", "h_network.rs", "c01_scheme", [Q, T], 10, 600, 4, ["filters::network_matchers::check_options"],
+             "all masks (kind bits off) x request scheme class {http, https, ws/wss} x party", [("m", "u32"), ("sc", "u8"), ("tp", "bool")], "c01_scheme",
+             asserts="options pass and get_tokens adds the 'http'/'https' token => the request has that scheme (so its URL carries that token)",
+             stubs=[PACK], consts={"mask_clear": (1 << 18) | (1 << 21) | (1 << 24) | (1 << 28) | (1 << 15)}),
+        gt("left", True, False, [T], 560, 2400, 16),
+        gt("right", False, True, [T], 590, 2400, 16),
+        gt("plain", False, False, [T], 600, 2400, 16),
+        gt("both", True, True, [T], 600, 2400, 16),
+        tok("plain", False, False, [T], 400, 2400, 16, two=True),
+        tok("left", True, False, [T], 400, 2400, 16, two=True),
+        tok("right", False, True, [T], 400, 2400, 16, two=True),
     ],
-    level_text="Decides, for all 256x256 mask pairs, that the permission gate predicate every scriptlet/dependency/redirect decision calls is exactly 'required bits are a subset of granted bits'. Thin claim: the argument-literal encoding and the dependency walk are outside.",
-    level_note="Partial. Decided: PermissionMask::is_injectable_by / is_default for all pairs (exhaustive by the solver). Outside: stringify_arg (no result in 12 min at 1 byte), dependency graph walk (HashMap<String,Resource>), template patching (regex), per-host merge.",
-    outside=["argument literal encoding (stringify_arg)", "dependency graph walk (HashMap<String,Resource>)", "template patching (regex)", "per-host merge"],
-    assumptions=["every permission decision in the crate is a call to is_injectable_by/is_default (read, not proved)"],
+    level_text="Decides token soundness for the non-regex pattern kinds: if a rule's pattern occurs in a URL at its anchored position, every token the rule can be bucketed under is a token the request probes (real tokenizer on both sides, observed at the hash call site, no model), plus the flag selection of get_tokens, the single-domain bucket key and the scheme token against check_options.",
+    level_note="Partial. Decided: the tokenisation half of C01 (a matching rule is never filed under a key the request does not probe) for plain/left/right/left+right anchored literal patterns <= 5 bytes with 1 context byte (2 in thorough), all masks. Outside: bucket selection and lookup through std HashMap, regex-kind patterns ('*','^','/re/'), verdict combination in Blocker, URLs >= 127 tokens. Known finding (role first-token-left-unanchored) is reported as KNOWN-FINDING, every other violation as VIOLATION.",
+    outside=["bucket selection + lookup through HashMap (symbolic key insert+get >15 min)", "regex-kind patterns (regex crate: Kani ICE)", "verdict combination in Blocker::check (>25 min in three container encodings)", "URLs with >= 127 tokens (excluded by the property)"],
+    assumptions=["no 64-bit seahash collision (fast_hash is replaced by an injective packing)", "one context byte on each side is without loss of generality for token arguments (a token is a maximal alphanumeric run); thorough tier uses two",
+                 "C01.tok uses an ASCII token-character closure; C01.l1c ties it to the real is_allowed_filter on ASCII; C01.gt (thorough) uses the real predicate"],
+)
+
+# ------------------------------------------------------------------------------------------------- C02
+PROPERTIES["C02"] = dict(
+    kernels=[
+        kern("C02.anchor", "src/filters/network_matchers.rs", "h_network_matchers.rs", "c02_anchor", [Q], 10, 600, 6, ["filters::network_matchers::is_anchored_by_hostname"],
+             "filter-host 0..=2 bytes of [a-z0-9.-], request host = valid hostname 1..=5 bytes, wildcard flag", [("fb", B(2)), ("fl", "usize"), ("hb", B(5)), ("hl", "usize"), ("w", "bool")], "c02_anchor",
+             asserts="anchored <=> some occurrence of the filter host in the request host has a label boundary on both sides (start/'.'/own '.', end/'.'/own '.'/wildcard)"),
+        kern("C02.anchor_t", "src/filters/network_matchers.rs", "h_network_matchers.rs", "c02_anchor_t", [T], 120, 2400, 12, ["filters::network_matchers::is_anchored_by_hostname"],
+             "filter-host 0..=3 bytes, request host = valid hostname 1..=7 bytes, wildcard flag", [("fb", B(3)), ("fl", "usize"), ("hb", B(7)), ("hl", "usize"), ("w", "bool")], "c02_anchor",
+             asserts="as C02.anchor"),
+        kern("C02.plain", "src/filters/network_matchers.rs", "h_network_matchers.rs", "c02_plain", [Q], 20, 600, 6,
+             ["filters::network_matchers::check_pattern", "check_pattern_plain_filter_filter", "check_pattern_left_anchor_filter", "check_pattern_right_anchor_filter", "check_pattern_left_right_anchor_filter", "request::Request::get_url"],
+             "pattern 1..=2 printable ASCII bytes, URL 0..=4 printable ASCII bytes, anchors and MATCH_CASE symbolic",
+             [("fb", B(2)), ("fl", "usize"), ("ub", B(4)), ("ul", "usize"), ("la", "bool"), ("ra", "bool"), ("mc", "bool")], "c02_plain",
+             asserts="match <=> substring / prefix / suffix / equality of the pattern in the case-folded URL (original spelling under MATCH_CASE)", stubs=STD_REGEX_STUBS),
+        kern("C02.plain_t", "src/filters/network_matchers.rs", "h_network_matchers.rs", "c02_plain_t", [T], 120, 2400, 12,
+             ["filters::network_matchers::check_pattern (plain/left/right/left+right arms)"],
+             "pattern 1..=3, URL 0..=5 printable ASCII bytes", [("fb", B(3)), ("fl", "usize"), ("ub", B(5)), ("ul", "usize"), ("la", "bool"), ("ra", "bool"), ("mc", "bool")], "c02_plain",
+             asserts="as C02.plain", stubs=STD_REGEX_STUBS),
+        kern("C02.host.left", "src/filters/network_matchers.rs", "h_network_matchers.rs", "c02_host_left", [T], 210, 2400, 12,
+             ["filters::network_matchers::check_pattern", "check_pattern_hostname_left_anchor_filter", "is_anchored_by_hostname", "get_url_after_hostname"],
+             "filter-host 1..=2 of [a-z0-9.-], request host valid 1..=3, remainder 1..=2 starting with '/', URL tail 0..=2 starting with '/',':' or '?'; URL = 's://' ++ host ++ tail",
+             [("hb", B(2)), ("hl", "usize"), ("rb", B(3)), ("rl", "usize"), ("fb", B(2)), ("fl", "usize"), ("tb", B(2)), ("tl", "usize")], "c02_host",
+             asserts="match <=> some label-boundary occurrence of the filter host in the host with the remainder a prefix of the URL text directly after it", stubs=STD_REGEX_STUBS, consts={"la": True, "ra": False}),
+        kern("C02.host.both", "src/filters/network_matchers.rs", "h_network_matchers.rs", "c02_host_both", [T], 230, 2400, 12,
+             ["filters::network_matchers::check_pattern", "check_pattern_hostname_left_right_anchor_filter", "is_anchored_by_hostname", "get_url_after_hostname"],
+             "as C02.host.left", [("hb", B(2)), ("hl", "usize"), ("rb", B(3)), ("rl", "usize"), ("fb", B(2)), ("fl", "usize"), ("tb", B(2)), ("tl", "usize")], "c02_host",
+             asserts="match <=> ... with the remainder equal to the URL text after that occurrence", stubs=STD_REGEX_STUBS, consts={"la": True, "ra": True}),
+    ],
+    level_text="Decides that every non-regex matcher path agrees with the ABP reference semantics: hostname anchoring at label boundaries (all occurrences), and the plain / left / right / left+right anchored literal arms incl. case folding; thorough adds the host-anchored arms with the remainder directly after the host.",
+    level_note="Partial. Decided: is_anchored_by_hostname and the literal matcher arms for all byte strings inside the bounds. Outside: '*'/'^' patterns and /re/ rules (compile_regex + regex crate cannot be compiled by Kani), hence the weakening relations; parse-time extraction of hostname/pattern from rule text; the unanchored host arm (str::contains: >20 min); the right-anchored-only host arm (arises only from '||host*...|', excluded by the property). Known finding (role remainder-after-first-occurrence-in-url) in thorough.",
+    outside=["'*' / '^' -> regex translation and /re/ rules (Kani ICE on the regex crate)", "parse-time extraction for '||host^...' (uses a Regex)", "unanchored host arm '||host*rest' (str::contains >20 min)", "right-anchored-only host arm (outside the property's domain)"],
+    assumptions=["request hostnames satisfy the documented validity predicate (non-empty [a-z0-9-] labels joined by single dots)", "Request.hostname is the host slice of Request.url (what Request::new guarantees)"],
+)
+
+# ------------------------------------------------------------------------------------------------- C03
+OPTS_LAYOUT = [("m", "u32"), ("t", "u8"), ("inc", U64S(3)), ("ni", "usize"), ("exc", U64S(3)), ("ne", "usize"), ("src", U64S(3)), ("ns", "usize"),
+               ("has_src", "bool"), ("has_iu", "bool"), ("has_eu", "bool"), ("http", "bool"), ("https", "bool"), ("tp", "bool")]
+PROPERTIES["C03"] = dict(
+    kernels=[
+        kern("C03.opts", "src/filters/network_matchers.rs", "h_network_matchers.rs", "c03_opts", [Q], 80, 900, 8,
+             ["filters::network_matchers::check_options", "NetworkFilterMaskHelper::check_cpt_allowed", "From<&RequestType> for NetworkFilterMask", "utils::bin_lookup"],
+             "all 2^32 masks x 17 request types x scheme/party flags x included/excluded lists of 0..=2 sorted symbolic hashes (union word present or absent) x source hashes absent or 0..=2 symbolic",
+             OPTS_LAYOUT, "c03_opts", asserts="check_options == reference over the meaning of the mask bits (type bit / document rule, http/https bits, party bits, include satisfied iff some source hash listed and never without a source, exclude violated iff some source hash listed, badfilter never)"),
+        kern("C03.opts_t", "src/filters/network_matchers.rs", "h_network_matchers.rs", "c03_opts_t", [T], 400, 2400, 16,
+             ["filters::network_matchers::check_options"], "as C03.opts with lists and source hashes of 0..=3", OPTS_LAYOUT, "c03_opts", asserts="as C03.opts"),
+    ],
+    level_text="Decides the request-side half of option semantics exhaustively: for every mask, request type, scheme/party flag combination and small include/exclude/source hash lists, check_options equals a reference written over the meaning of the bits.",
+    level_note="Partial. Decided: check_options (+ check_cpt_allowed, request-type -> bit mapping, the OR-union pre-filter) for all 2^32 masks. Outside: option text -> mask (NetworkFilter::parse: one concrete parse >25 min; '||host^' implicit types sit behind a Regex), so the statement is relative to 'the parser sets the bits the documentation says'.",
+    outside=["option text -> mask (NetworkFilter::parse)", "match-case (pattern side, see C02.plain)", "unsupported schemes (see C12.scheme)"],
+    assumptions=["domain hash lists are sorted (the parser sorts them; bin_lookup relies on it)"],
+)
+
+# ------------------------------------------------------------------------------------------------- C04
+ID_LAYOUT = lambda n: [("my", "u32"), ("a", B(n)), ("al", "usize"), ("b", B(n)), ("bl", "usize"), ("c", B(n)), ("cl", "usize"), ("d", B(n)), ("dl", "usize"),
+                       ("has_hy", "bool"), ("has_hz", "bool"), ("dy", "u64"), ("dz", "u64"), ("has_dy", "bool"), ("has_dz", "bool"), ("my2", "u32")]
+PROPERTIES["C04"] = dict(
+    kernels=[
+        kern("C04.id", "src/filters/network.rs", "h_network.rs", "c04_id", [Q], 30, 900, 8, ["filters::network::compute_filter_id", "NetworkFilter::get_id", "NetworkFilter::get_id_without_badfilter"],
+             "two rule values y, z$badfilter: arbitrary mask, filter and hostname strings 0..=2 printable ASCII bytes, hostname present/absent, 0..=1 included-domain hash",
+             ID_LAYOUT(2), "c04_id", asserts="(<=) same pattern+hostname+domains+mask => get_id_without_badfilter(z) == get_id(y); (=>) equal ids => same rule [known: id stream has no delimiters]; the mask is part of the id"),
+        kern("C04.id3", "src/filters/network.rs", "h_network.rs", "c04_id3", [T], 120, 2400, 12, ["filters::network::compute_filter_id"], "as C04.id with strings 0..=3", ID_LAYOUT(3), "c04_id", asserts="as C04.id"),
+    ],
+    level_text="Decides badfilter identity at the level of the id function: a $badfilter twin of a rule (same pattern, hostname, domains, options) always produces the id that cancels it, and the option mask is part of the id; that badfilter rules never match is decided under C03.opts.",
+    level_note="Partial. Decided: compute_filter_id/get_id/get_id_without_badfilter for all masks and bounded strings. Outside: evaluation order important -> normal -> exception and both monotonicity statements (Blocker::check_parameterised over eight HashMap-backed lists). Known finding: structural id collisions (role badfilter-id-collision).",
+    outside=["precedence / monotonicity at Blocker::check level (HashMap x8)", "tag differences between a rule and its badfilter twin (outside the property's domain)"],
+    assumptions=[],
+)
+
+# ------------------------------------------------------------------------------------------------- C05
+FUSE_LAYOUT = lambda p, u: [("b1", B(p)), ("l1", "usize"), ("b2", B(p)), ("l2", "usize"), ("ub", B(u)), ("ul", "usize"), ("e1", "bool"), ("e2", "bool"), ("m", "u32"),
+                            ("t1", "bool"), ("t2", "bool"), ("rt_script", "bool"), ("tp", "bool"), ("tag_on", "bool")]
+PROPERTIES["C05"] = dict(
+    kernels=[
+        kern("C05.fuse", "src/optimizer.rs", "h_optimizer.rs", "c05_fuse", [Q], 70, 900, 10,
+             ["optimizer::SimplePatternGroup::select", "optimizer::SimplePatternGroup::fusion", "NetworkMatchable::matches (check_options + check_pattern incl. AnyOf iteration)"],
+             "two rules with the same symbolic mask (regex/host-anchor/match-case kind bits off), patterns 1..=2 printable ASCII bytes or empty, tag in {none,'a'} each, URL 0..=3 bytes, request type/party and tag-enabled flag symbolic",
+             FUSE_LAYOUT(2, 3), "c05_fuse", asserts="select(f1) and select(f2) => (fused matches and is active <=> f1 matches and is active or f2 matches and is active); select refuses domain-bearing, redirect, csp and host-anchored rules",
+             stubs=STD_REGEX_STUBS, consts={"mask_clear": (1 << 18) | (1 << 21) | (1 << 24) | (1 << 28) | (1 << 14)}),
+        kern("C05.fuse_t", "src/optimizer.rs", "h_optimizer.rs", "c05_fuse_t", [T], 600, 2400, 20, ["optimizer::SimplePatternGroup::select/fusion", "NetworkMatchable::matches"],
+             "as C05.fuse with URL 0..=4 bytes", FUSE_LAYOUT(2, 4), "c05_fuse", asserts="as C05.fuse", stubs=STD_REGEX_STUBS, consts={"mask_clear": (1 << 18) | (1 << 21) | (1 << 24) | (1 << 28) | (1 << 14)}),
+    ],
+    level_text="Decides the fusion step: for any two rules the grouping key allows to fuse, the fused rule is active-and-matching exactly when some member is, for every request inside the bound; and eligibility (select) refuses the rule kinds a fused rule cannot represent.",
+    level_note="Partial. Decided: SimplePatternGroup::select + fusion against the real per-rule matcher. The grouping key format!(\"{:b}:{:?}\", mask, is_complete_regex) is modelled as 'same mask' (format! is not executed). Outside: the optimize() driver (partition, HashMap<String,Vec<_>>, re-sort), regex-kind members, which lists are optimised.",
+    outside=["optimize() driver (HashMap<String,_> + format!)", "regex-kind members", "removeparam list is never optimised (constructor argument)"],
+    assumptions=["group_by_criteria groups exactly the rules with equal masks (read, not executed)"],
+)
+
+# ------------------------------------------------------------------------------------------------- C08
+RULE_LAYOUT = [("m", "u32"), ("has_mod", "bool"), ("has_host", "bool"), ("has_tag", "bool"), ("has_raw", "bool"), ("cm", "u8"), ("ch", "u8"), ("ct", "u8"), ("cr", "u8"), ("cf", "u8"),
+               ("fk", "u8"), ("nd", "u8"), ("nn", "u8"), ("d0", "u64"), ("d1", "u64"), ("n0", "u64"), ("n1", "u64"), ("has_du", "bool"), ("has_nu", "bool"), ("du", "u64"), ("nu", "u64"), ("id", "u64")]
+PROPERTIES["C08"] = dict(
+    kernels=[
+        kern("C08.rule", "src/data_format/v0.rs", "h_v0.rs", "c08_rule", [Q], 10, 600, 6,
+             ["data_format::v0::NetworkFilterV0SerializeFmt::from(&NetworkFilter)", "NetworkFilter::from(NetworkFilterV0DeserializeFmt)"],
+             "arbitrary rule value: all 2^32 masks; modifier/hostname/tag/raw_line each none or a 1-byte string; pattern Empty/Simple/AnyOf; 0..=1 included and excluded domain hashes; union words present/absent; any id",
+             RULE_LAYOUT, "c08_rule", asserts="engine rule -> wire struct -> engine rule preserves mask, id, hostname, tag, pattern, domain lists and unions, raw_line presence, and modifier_option",
+             cuts=["rmp-serde byte codec modelled as the identity on each field (6 symbolic bytes through rmp-serde: 11 GB, no result)"]),
+        kern("C08.rule_t", "src/data_format/v0.rs", "h_v0.rs", "c08_rule_t", [T], 30, 1200, 8, ["as C08.rule"], "as C08.rule with 0..=2 domain hashes per list", RULE_LAYOUT, "c08_rule", asserts="as C08.rule",
+             cuts=["rmp-serde byte codec modelled as the identity on each field"]),
+    ],
+    level_text="Decides field-by-field fidelity of the hand-written rule mapping engine-rule -> wire struct -> engine-rule for arbitrary rule values (all masks, every optional field).",
+    level_note="Partial. Decided: the two rule-level From impls of data_format/v0.rs. Outside: msgpack byte codec (rmp-serde), list-level and cosmetic-DB mappings (iterate std HashMaps: one-entry round trip no result in 15 min), query-level equality. Known finding: modifier_option survives only under the redirect/csp bit (removeparam rules lose their parameter; role modifier-option-only-kept-for-redirect-and-csp).",
+    outside=["msgpack byte codec (rmp-serde)", "list-level mapping and cosmetic DB conversion (std HashMap iteration)", "query-level equality (needs the engine)"],
+    assumptions=["rmp-serde round-trips each field value faithfully"],
 )
 
 # ------------------------------------------------------------------------------------------------- C10
@@ -89,20 +259,107 @@ PROPERTIES["C10"] = dict(
     kernels=[
         kern("C10.header", "src/data_format/mod.rs", "h_data_format_mod.rs", "c10_header", [Q], 5, 300, 4,
              ["data_format::DeserializeFormat::deserialize (header/version dispatch)"],
-             "every buffer of length 0..=11 (11 symbolic bytes, symbolic length)", [("buf", ("bytes", 11)), ("len", "usize")], "c10_header",
-             asserts="no panic / out-of-bounds index for any buffer",
+             "every buffer of length 0..=11 (11 symbolic bytes, symbolic length)", [("buf", B(11)), ("len", "usize")], "c10_header",
+             asserts="no panic / out-of-bounds index for any buffer", panic_free=True,
              stubs=["data_format::v0::DeserializeFormat::deserialize -> Err (rmp-serde body decode is out of reach)"]),
         kern("C10.header16", "src/data_format/mod.rs", "h_data_format_mod.rs", "c10_header_16", [T], 10, 900, 8,
              ["data_format::DeserializeFormat::deserialize (header/version dispatch)"],
-             "every buffer of length 0..=16", [("buf", ("bytes", 16)), ("len", "usize")], "c10_header",
-             asserts="no panic / out-of-bounds index for any buffer",
+             "every buffer of length 0..=16", [("buf", B(16)), ("len", "usize")], "c10_header",
+             asserts="no panic / out-of-bounds index for any buffer", panic_free=True,
              stubs=["data_format::v0::DeserializeFormat::deserialize -> Err (rmp-serde body decode is out of reach)"]),
+        kern("C10.rule_a", "src/filters/network_matchers.rs", "h_network_matchers.rs", "c10_rule_a", [Q, T], 5, 300, 4,
+             ["filters::network_matchers::check_pattern (all arms)", "filters::network_matchers::check_options"],
+             "decoded rule value: any of the 2^32 masks, hostname absent, pattern empty; fixed well-formed request", [("m", "u32")], "c10_rule_a",
+             asserts="the matcher returns (no unreachable!/unwrap panic) for every mask", panic_free=True, stubs=STD_REGEX_STUBS),
     ],
     level_text="Decides that the header/version dispatch in front of the msgpack decoder cannot panic for any buffer up to the bound, and that a decoded rule value with any of the 2^32 masks and absent hostname cannot panic the matcher.",
-    level_note="Partial. Decided: data_format::DeserializeFormat::deserialize dispatch for every buffer <= 11 bytes (16 thorough) with the rmp-serde body decoder stubbed to Err; check_pattern on rule values with arbitrary mask and no hostname. Outside: rmp-serde decode of corrupted bodies, rule values with strings, atomicity.",
-    outside=["decode of corrupted bodies (rmp-serde)", "rule values with hostname/pattern strings", "atomicity beyond 'error returns before any assignment'"],
+    level_note="Partial. Decided: data_format::DeserializeFormat::deserialize dispatch for every buffer <= 11 bytes (16 thorough) with the rmp-serde body decoder stubbed to Err; check_pattern/check_options on rule values with arbitrary mask and no hostname. Outside: rmp-serde decode of corrupted bodies, rule values with hostname/pattern strings (str::contains >20 min), atomicity beyond 'error returns before any assignment' (read).",
+    outside=["decode of corrupted bodies (rmp-serde)", "rule values with hostname/pattern strings", "atomicity beyond 'error returns before any assignment'", "allocation bounds"],
     assumptions=["the v0 body decoder either returns Err or a value; it is stubbed to Err"],
 )
+
+# ------------------------------------------------------------------------------------------------- C11
+SPLIT_LAYOUT = [("a", "bool"), ("c", "bool"), ("b", "bool"), ("x", "u8"), ("ch", "char"), ("y", "u8")]
+PROPERTIES["C11"] = dict(
+    kernels=[
+        kern("C11.split", "src/filters/abstract_network.rs", "h_abstract_network.rs", "c11_split", [Q], 40, 900, 8, ["filters::abstract_network::AbstractNetworkFilter::parse"],
+             "line = ASCII? . arbitrary char? (every Unicode scalar value)", SPLIT_LAYOUT, "c11_split", asserts="no panic, every slice on a char boundary; pattern is a sub-slice of the line", panic_free=True,
+             stubs=["filters::abstract_network::parse_filter_options -> Err (its result never feeds a slice offset)"]),
+        kern("C11.split_t", "src/filters/abstract_network.rs", "h_abstract_network.rs", "c11_split_t", [T], 270, 2400, 12, ["filters::abstract_network::AbstractNetworkFilter::parse"],
+             "line = ASCII? . arbitrary char? . ASCII?", SPLIT_LAYOUT, "c11_split", asserts="as C11.split", panic_free=True,
+             stubs=["filters::abstract_network::parse_filter_options -> Err"]),
+        kern("C11.sep", "src/resources/resource_storage.rs", "h_resource_storage.rs", "c18_sep", [T], 670, 3000, 16, ["resources::resource_storage::index_next_unescaped_separator"],
+             "3 printable ASCII bytes, symbolic length", [("b", B(3)), ("l", "usize")], "c18_sep", asserts="no panic; returned index in range, points at an unescaped ','; None only if every ',' is escaped", panic_free=True),
+    ],
+    level_text="Decides totality (no panic, every slice on a char boundary) of the network-rule front end (exception / '$' split / anchors) on strings that put an arbitrary Unicode scalar next to the ASCII delimiters the offsets are computed from; thorough adds the scriptlet-argument separator scan. Thin claim.",
+    level_note="Partial and thin. Decided: AbstractNetworkFilter::parse with option parsing cut. Outside: rule-kind detection (detect_filter_type: >12 min at 3 chars), NetworkFilter::parse / CosmeticFilter::parse / hosts branch (regex, idna), metadata cut-off (>15 min), line independence (structural).",
+    outside=["lists::detect_filter_type (str::contains)", "NetworkFilter::parse, CosmeticFilter::parse, hosts branch (regex, idna, memory)", "read_list_metadata cut-off", "line independence", "rule-type options"],
+    assumptions=["parse_filter_options' result is not used for slicing (read)"],
+)
+
+# ------------------------------------------------------------------------------------------------- C12
+PROPERTIES["C12"] = dict(
+    kernels=[
+        kern("C12.scheme", "src/request.rs", "h_request.rs", "c12_scheme", [Q, T], 5, 600, 4, ["request::Request::from_detailed_parameters", "request::cpt_match_type"],
+             "every scheme string 0..=5 printable ASCII bytes x 3 request-type strings", [("sb", B(5)), ("sl", "usize"), ("ty", "u8")], "c12_scheme",
+             asserts="is_http <=> 'http'; is_https <=> 'https' or empty; supported <=> {'',http,https,ws,wss}; websocket type forced <=> ws/wss", stubs=[PACK]),
+        kern("C12.types", "src/request.rs", "h_request.rs", "c12_types", [Q, T], 20, 600, 4, ["request::cpt_match_type"], "the 24 documented spellings + one unknown, chosen by a symbolic index", [("i", "usize")], "c12_types",
+             asserts="alias table maps each spelling to the documented request type"),
+        kern("C12.srchash", "src/request.rs", "h_request.rs", "c12_srchash", [Q], 60, 900, 8, ["request::Request::preparsed", "request::Request::from_detailed_parameters"],
+             "source host 0..=4 printable ASCII bytes", [("hb", B(4)), ("hl", "usize")], "c12_srchash",
+             asserts="source hashes absent iff host empty; else hash(full host) followed by hash of the suffix after each '.' that is not the last byte, nothing else", stubs=[PACK]),
+        kern("C12.srchash_t", "src/request.rs", "h_request.rs", "c12_srchash_t", [T], 260, 2400, 12, ["request::Request::preparsed"], "source host 0..=5 bytes", [("hb", B(5)), ("hl", "usize")], "c12_srchash",
+             asserts="as C12.srchash", stubs=[PACK]),
+    ],
+    level_text="Decides request classification: scheme -> http/https/supported/forced-websocket for every scheme string up to 5 bytes, the request-type alias table, and the source-hostname suffix hashes (the keys $domain= options are matched against).",
+    level_note="Partial. Decided: Request::from_detailed_parameters flags, cpt_match_type, source_hostname_hashes. Outside: the URL scanner (5 symbolic bytes >25 min), third-party classification (PSL tables), IDNA, Request::new == Request::preparsed end to end; the line url[..memchr(':')] deriving the scheme is read, not proved.",
+    outside=["URL scanner (userinfo/host/IDNA)", "PSL lookup / third-party classification", "new == preparsed end to end"],
+    assumptions=["the scheme passed to from_detailed_parameters contains no ':' (it is the URL prefix before the first ':')"],
+)
+
+# ------------------------------------------------------------------------------------------------- C16
+HOST_LAYOUT = lambda n: [("hb", B(n)), ("hl", "usize"), ("ds", "usize")]
+PROPERTIES["C16"] = dict(
+    kernels=[
+        kern("C16.labels", "src/filters/cosmetic.rs", "h_cosmetic.rs", "c16_labels", [Q], 90, 900, 8, ["filters::cosmetic::get_hostname_hashes_from_labels", "filters::cosmetic::get_hashes_from_labels"],
+             "host 1..=6 printable ASCII bytes, registrable-domain split at any position that is 0 or follows a '.'", HOST_LAYOUT(6), "c16_labels",
+             asserts="hostname keys == { hash(s) : s a label-suffix of the host containing the whole registrable domain }", stubs=[PACK]),
+        kern("C16.entity", "src/filters/cosmetic.rs", "h_cosmetic.rs", "c16_entity", [Q], 60, 900, 8, ["filters::cosmetic::get_entity_hashes_from_labels", "filters::cosmetic::get_hostname_without_public_suffix"],
+             "as C16.labels", HOST_LAYOUT(6), "c16_entity", asserts="entity keys == { hash(s) : s a label-suffix of host-minus-public-suffix } + { hash(public suffix) }; none when the domain has no dot", stubs=[PACK]),
+        kern("C16.generic", "src/filters/cosmetic.rs", "h_cosmetic.rs", "c16_generic", [Q, T], 10, 600, 4, ["filters::cosmetic::CosmeticFilter::hidden_generic_rule", "CosmeticFilter::has_hostname_constraint"],
+             "every combination of present/absent hostnames, entities, negated hostnames, negated entities x 256 mask values x action present/absent",
+             [("e", "bool"), ("h", "bool"), ("ne", "bool"), ("nh", "bool"), ("mbits", "u8"), ("act", "bool")], "c16_generic",
+             asserts="a rule also acts generically iff it has only negated locations, no action and is not a script injection; the generic twin is unscoped"),
+        kern("C16.labels_t", "src/filters/cosmetic.rs", "h_cosmetic.rs", "c16_labels_t", [T], 200, 2400, 12, ["filters::cosmetic::get_hostname_hashes_from_labels"], "host 1..=7 bytes", HOST_LAYOUT(7), "c16_labels", asserts="as C16.labels", stubs=[PACK]),
+        kern("C16.entity_t", "src/filters/cosmetic.rs", "h_cosmetic.rs", "c16_entity_t", [T], 150, 2400, 12, ["filters::cosmetic::get_entity_hashes_from_labels"], "host 1..=7 bytes", HOST_LAYOUT(7), "c16_entity", asserts="as C16.entity", stubs=[PACK]),
+    ],
+    level_text="Decides the host -> lookup-key derivation behind per-site cosmetic scoping: exactly the label suffixes from the full host down to the registrable domain (and the entity forms) are looked up, for every host inside the bound and every admissible domain split; and when a negated-location rule also acts generically.",
+    level_note="Partial. Decided: get_hostname_hashes_from_labels, get_entity_hashes_from_labels, hidden_generic_rule/has_hostname_constraint. Outside: populate/prune over HashMap<Hash,Vec<String>> + HashSet<String>, the public-suffix resolver (its documented contract is assumed), IDN, generichide.",
+    outside=["store/prune over HashMap + HashSet<String>", "PSL resolver", "IDN", "generichide (Blocker)"],
+    assumptions=["the resolver returns a registrable domain that starts at 0 or after a '.', and does not start or end with '.'", "no 64-bit hash collision (injective packing)"],
+)
+
+# ------------------------------------------------------------------------------------------------- C18
+PROPERTIES["C18"] = dict(
+    kernels=[
+        kern("C18.perm", "src/resources/mod.rs", "h_resources_mod.rs", "c18_perm", [Q, T], 2, 300, 4,
+             ["resources::PermissionMask::is_injectable_by", "resources::PermissionMask::is_default", "resources::PermissionMask::from_bits"],
+             "all 256 x 256 (required, granted) pairs", [("required", "u8"), ("granted", "u8")], "c18_perm",
+             asserts="is_injectable_by(required, granted) <=> every required bit is granted; is_default <=> no bit"),
+        kern("C18.sep", "src/resources/resource_storage.rs", "h_resource_storage.rs", "c18_sep", [T], 670, 3000, 16, ["resources::resource_storage::index_next_unescaped_separator"],
+             "3 printable ASCII bytes, symbolic length", [("b", B(3)), ("l", "usize")], "c18_sep", asserts="no panic; returned index in range, points at an unescaped ','; None only if every ',' is escaped", panic_free=True),
+    ],
+    level_text="Decides, for all 256x256 mask pairs, that the permission gate predicate every scriptlet/dependency/redirect decision calls is exactly 'required bits are a subset of granted bits'; thorough adds the +js(...) separator scan. Thin claim: the argument-literal encoding and the dependency walk are outside.",
+    level_note="Partial and thin. Decided: PermissionMask::is_injectable_by / is_default for all pairs (exhaustive by the solver). Outside: stringify_arg (no result in 12 min at 1 byte), dependency graph walk (HashMap<String,Resource>), template patching (regex), per-host merge.",
+    outside=["argument literal encoding (stringify_arg)", "dependency graph walk (HashMap<String,Resource>)", "template patching (regex)", "per-host merge"],
+    assumptions=["every permission decision in the crate is a call to is_injectable_by/is_default (read, not proved)"],
+)
+
+# --------------------------------------------------------------------------------------------- selftest
+PROPERTIES["SELF_FALSE"] = dict(kernels=[kern("SELF.false", "src/resources/mod.rs", "h_selftest.rs", "self_false", [Q], 2, 300, 4, ["selftest"], "-", [("r", "u8")], "selftest")],
+                                level_text="", level_note="", outside=[], assumptions=[])
+PROPERTIES["SELF_VACUOUS"] = dict(kernels=[kern("SELF.vacuous", "src/resources/mod.rs", "h_selftest.rs", "self_vacuous", [Q], 2, 300, 4, ["selftest"], "-", [("r", "u8")], "selftest")],
+                                  level_text="", level_note="", outside=[], assumptions=[])
 
 NOTES = ("Every check is a set of Kani proof harnesses over the real functions of /repo (copied and re-encoded on every run). "
          "All claims are bounded (bounds per kernel in the evidence) and partial: each level_note says which part of the property is decided "
